@@ -91,6 +91,8 @@ def mk_task(spec: Dict[str, Any]) -> ScheduledTask:
     T = B0 + _dt.timedelta(milliseconds=spec["T"])
     if spec.get("naive"):
         T = T.replace(tzinfo=None)
+    elif spec.get("tzh"):
+        T = T.astimezone(_dt.timezone(_dt.timedelta(hours=spec["tzh"])))     # the same instant, read on another clock
     return ScheduledTask(task_name=f"task{tn}", labels=labels, args=PAYLOAD_ARGS + [sid], kwargs=dict(PAYLOAD_KW, sid=sid),
                          schedule_id=f"s{sid}", time=T)
 
@@ -160,6 +162,8 @@ class ScriptedSource(ScheduleSource):
         self.env.rec("presend", src=self.idx, sid=sid, ok=not cancel)
         if cancel:
             raise ScheduledTaskCancelledError
+        if self.spec.get("edit"):
+            task.labels["stamp"] = f"S{sid}"        # pre_send runs FIRST: what it puts on the schedule is sent
 
     def _pre_sync(self, task: ScheduledTask) -> None:
         self._pre(task)
@@ -252,6 +256,8 @@ class RecBroker(AsyncBroker):
         self.nk[sid] = self.nk.get(sid, 0) + 1
         fail = [sid, self.nk[sid]] in self.cfg.get("kickfail", [])
         exp_labels = {"lbl": f"L{sid}", "n": sid, "schedule_id": f"s{sid}"}
+        if self.cfg.get("_edit", {}).get(sid):
+            exp_labels["stamp"] = f"S{sid}"
         if self.cfg.get("_viak", {}).get(sid) and tm.labels.get("n") == str(sid):
             # a schedule created through kicker.schedule_by_*() stores its labels in wire form (strings): that is the
             # schedule's payload (observation recorded in DESIGN.md: label types are not kept on this route)
@@ -280,12 +286,15 @@ def normalize(cfg: Dict[str, Any]) -> Dict[str, Any]:
     srcs = []
     for s in c.get("srcs", []):
         s2 = {"lat": s.get("lat", 0), "pre": s.get("pre", ""), "post": s.get("post", "sync"), "removes": s.get("removes", True),
+              "edit": bool(s.get("edit", False)) and bool(s.get("pre", "")),
               "future": bool(s.get("future", False)),
               "fail": list(s.get("fail", [])), "sched": [norm_sched(x) for x in s.get("sched", [])]}
         srcs.append(s2)
     c["srcs"] = srcs
     c["_tn"] = {x["sid"]: (x["tn"] or x["sid"]) for s_ in srcs for x in s_["sched"]}
     c["_viak"] = {x["sid"]: x["viak"] for s_ in srcs for x in s_["sched"]}
+    c["_edit"] = {x["sid"]: s_["edit"] for s_ in srcs for x in s_["sched"]}
+    c["_srcedit"] = [s_["edit"] for s_ in srcs]
     c["minute"] = 60000
     c["second"] = 1000
     return c
@@ -294,7 +303,7 @@ def normalize(cfg: Dict[str, Any]) -> Dict[str, Any]:
 def norm_sched(x: Dict[str, Any]) -> Dict[str, Any]:
     return {"sid": x["sid"], "kind": x["kind"], "mins": list(x.get("mins", [])), "T": x.get("T", 0), "cancel": bool(x.get("cancel", False)),
             "naive": bool(x.get("naive", False)), "tn": x.get("tn", 0), "lblsid": bool(x.get("lblsid", False)),
-            "viak": bool(x.get("viak", False))}
+            "viak": bool(x.get("viak", False)), "tzh": int(x.get("tzh", 0))}
 
 
 def run(scn: Dict[str, Any]) -> List[Dict[str, Any]]:
@@ -335,6 +344,7 @@ def run(scn: Dict[str, Any]) -> List[Dict[str, Any]]:
                 spec = norm_sched(step[3])
                 cfg["_tn"][spec["sid"]] = spec["tn"] or spec["sid"]
                 cfg["_viak"][spec["sid"]] = spec["viak"]
+                cfg["_edit"][spec["sid"]] = cfg["_srcedit"][src - 1]
                 env.rec("add", src=src, sid=spec["sid"], s=spec["kind"], n=spec["T"], ok=not spec["cancel"], ids=spec["mins"])
                 sources[src - 1].add(spec)
             elif op == "remove":
